@@ -217,6 +217,11 @@ func init() {
 			}
 			return Tuple{x.C.FC(0), x.C.IntC(64, int64(pos)), x.C.False()}
 		},
+		// vClose(a, b): equality of quantities that are exact only in real
+		// arithmetic (natively: agreement to a relative tolerance)
+		"vClose": func(x *Exec, _ *ssa.Function, a []Value) Value {
+			return x.C.FEq(a[0].(*smt.Term), a[1].(*smt.Term))
+		},
 		"vLoadTape": func(x *Exec, _ *ssa.Function, a []Value) Value { return nil },
 	}
 }
